@@ -1,4 +1,4 @@
-SPECIFICATION MemSpec
+SPECIFICATION LayoutSpec
 CONSTANTS
   GasLimit = 200
   DepthLimit = 2
@@ -8,6 +8,6 @@ CONSTANTS
   GasArgs = {"0"}
   Targets = {"empty"}
   CallValues = {"0"}
-  Presents = {0}
-INVARIANTS MemDump
+  Presents = {0, 1, 2, 7, 8, 9, 15, 16, 24, 30, 31}
+INVARIANTS LayoutInv LayoutDump
 CHECK_DEADLOCK FALSE
